@@ -641,9 +641,51 @@ pub(crate) fn c11_history(kind: ShareKind, nops: usize) {
     }
   };
   let mut was_zero = false;
+  // (host, dependant): the host's first callback subscribes the dependant to the shared observable
+  let mut armed: Option<(usize, usize)> = None;
   'ops: for _ in 0..nops {
-    let op = e::choose(4);
+    let op = e::choose(5);
     match op {
+      4 => {
+        // subscribe s_i whose first callback subscribes s_j to the same shared observable (hot sources)
+        if cold || used + 2 > NS || armed.is_some() || src_done {
+          break 'ops;
+        }
+        let (i, j) = (used, used + 1);
+        used += 2;
+        e::note(format!("subscribe s{} (subscribes s{} from inside its first callback)", i, j));
+        let first = !ever_subscribed;
+        ever_subscribed = true;
+        active[i] = true;
+        let pj = probes[j];
+        match &mut built {
+          Built::Pub(_, f) => {
+            let f2 = f.clone();
+            let n = move || std::mem::forget(f2.clone().actual_subscribe(pj));
+            let u = f.clone().actual_subscribe(SubObs { probe: probes[i], nested: Some(n) });
+            unsubs[i] = Some(Box::new(move || u.unsubscribe()));
+          }
+          Built::Local(s) => {
+            if first {
+              connected = true;
+            }
+            let s2 = s.clone();
+            let n = move || std::mem::forget(s2.clone().actual_subscribe(pj));
+            let u = s.clone().actual_subscribe(SubObs { probe: probes[i], nested: Some(n) });
+            unsubs[i] = Some(Box::new(move || u.unsubscribe()));
+          }
+          Built::Threads(s) => {
+            if first {
+              connected = true;
+            }
+            let s2 = s.clone();
+            let n = move || std::mem::forget(s2.clone().actual_subscribe(pj));
+            let u = s.clone().actual_subscribe(SubObs { probe: probes[i], nested: Some(n) });
+            unsubs[i] = Some(Box::new(move || u.unsubscribe()));
+          }
+        }
+        armed = Some((i, j));
+      }
       0 => {
         if used >= NS {
           break 'ops; // nothing left to do for this operation: the history ends here
@@ -693,6 +735,11 @@ pub(crate) fn c11_history(kind: ShareKind, nops: usize) {
         probes[i].silence();
         let was_active = active[i];
         active[i] = false;
+        if let Some((host, _)) = armed {
+          if host == i {
+            armed = None; // its callback never ran: the dependant is never subscribed
+          }
+        }
         if was_active && !active.iter().any(|a| *a) && kind != ShareKind::PublishLocal {
           was_zero = true; // the ref-count dropped to zero: whether the source stays connected is not specified
         }
@@ -721,13 +768,27 @@ pub(crate) fn c11_history(kind: ShareKind, nops: usize) {
         };
         let tapped = world::counter(1) != taps_before;
         if delivered && !src_done && (tapped || !matches!(ev, Ev::Next(_)) || !was_zero) {
+          let mut joins: Option<usize> = None;
           for i in 0..NS {
             if active[i] {
               want[i].push(ev.clone());
+              if let Some((host, dep)) = armed {
+                if host == i {
+                  // the host's callback ran: the dependant joined during this emission (it does not see this
+                  // item; joining during a terminal it sees nothing at all)
+                  armed = None;
+                  if matches!(ev, Ev::Next(_)) {
+                    joins = Some(dep);
+                  }
+                }
+              }
               if !matches!(ev, Ev::Next(_)) {
                 active[i] = false;
               }
             }
+          }
+          if let Some(dep) = joins {
+            active[dep] = true;
           }
           if !matches!(ev, Ev::Next(_)) {
             src_done = true;
